@@ -96,6 +96,9 @@ def origin_class(origin, host_value):
         return "EITHER"
     if origin == "null":
         return "DIFF"
+    if origin.strip(" \t") == "":
+        # an Origin header that is present but empty names no host: it cannot equal the Host header
+        return "DIFF"
     m = re.match(r"^([A-Za-z][A-Za-z0-9+.\-]*)://([^/?#]*)(.*)$", origin, re.S)
     if not m:
         return "EITHER"
@@ -189,10 +192,10 @@ VERSION = {
 }
 ORIGIN_T = {
     "quick": ["none", "same", "same-upper", "other-host", "suffix-host", "other-port",
-              "userinfo-trick", "null", "https-same"],
+              "userinfo-trick", "null", "https-same", "empty"],
     "thorough": ["none", "same", "same-upper", "other-host", "suffix-host", "sub-host",
                  "prefix-host", "other-port", "userinfo-same", "userinfo-trick", "null",
-                 "https-same", "path", "legacy-same", "legacy-other"],
+                 "https-same", "path", "legacy-same", "legacy-other", "empty"],
 }
 SUBOFFER = {
     "quick": [("absent", None), ("chat,superchat", "chat, superchat")],
@@ -632,7 +635,7 @@ C_SUBRESP = {
     "thorough": [("absent", None), ("chat", "chat"), ("superchat", "superchat"), ("evil", "evil"),
                  ("chat,superchat", "chat, superchat"), ("CHAT", "CHAT"), ("empty", "")],
 }
-C_SUBOFFER = [None, ["chat"], ["chat", "superchat"]]
+C_SUBOFFER = [None, ["chat"], ["chat", "superchat"], ["superchat"]]
 C_EXTRESP = {
     "quick": [("absent", None), ("pmd", PMD), ("pmd;cmwb=10", PMD + "; client_max_window_bits=10"),
               ("unknown", "x-webkit-deflate-frame"), ("pmd;cmwb=7", PMD + "; client_max_window_bits=7")],
